@@ -100,6 +100,45 @@ def gate (srv : Option Server) (isDescribe : Bool) (c : Option Bytes) : Verdict 
     | none => .allow
     | some s => check s c
 
+
+/-! ### Configuration histories and the rest of the dispatch boundary -/
+
+/-- One `SetProtocolVersion(v)` call on a server in state `st` (`none` = no declared version).
+A call that panics (non-canonical `v`) has not touched any field: the state stays as it was. -/
+def setStep (st : Option Server) (v : Bytes) : Option Server :=
+  match setVersion v with
+  | .unset => none
+  | .set s => some s
+  | .panic => st
+
+/-- The state after a whole history of `SetProtocolVersion` calls on a fresh server. -/
+def configureSeq (vs : List Bytes) : Option Server := vs.foldl setStep none
+
+/-- Some OTHER defect of the request, classified by where the code detects it relative to the
+version guard: `early` = before it (framing: missing method key, request_version, row count;
+unknown method; route/method mismatch; wrong route kind; content type), `late` = after it
+(parameter binding). -/
+inductive Stage
+  | none | early | late
+  deriving Repr, DecidableEq
+
+inductive Outcome
+  | dispatched
+  | refused (v : Verdict)     -- ProtocolVersionError, `v ≠ allow`
+  | otherError
+  deriving Repr, DecidableEq
+
+/-- What a route answers: early defects are reported first, then the version guard, then
+parameter binding, then the handler. -/
+def callOutcome (srv : Option Server) (isDescribe : Bool) (c : Option Bytes) (flaw : Stage) :
+    Outcome :=
+  match flaw with
+  | .early => .otherError
+  | f =>
+    match gate srv isDescribe c with
+    | .allow => if f = .late then .otherError else .dispatched
+    | v => .refused v
+
 /-! ### Canonical decimal numerals (specification vocabulary) -/
 
 def digitChar (n : Nat) : UInt8 := UInt8.ofNat (48 + n % 10)
